@@ -143,10 +143,10 @@ def make_recursive(graph, spelling, twin=False, fixed_ending=None):
     n = len(reach)
 
     def cell(ending: int, mask: int, remove: int, add: int, boom: bool) -> None:
-        assert 0 <= ending < len(ENDINGS) and 0 <= mask < 2 ** n and 0 <= remove <= n and 0 <= add <= 3
+        assert 0 <= ending < len(ENDINGS) and 0 <= mask < 2 ** n and 0 <= remove <= n and 0 <= add <= 5
         assert fixed_ending is None or ending == fixed_ending
         ending_name = ENDINGS[pick(ending, 0, len(ENDINGS) - 1)]
-        mask, remove, add, boom = pick(mask, 0, 2 ** n - 1), pick(remove, 0, n), pick(add, 0, 3), bool(pick(boom, 0, 1))
+        mask, remove, add, boom = pick(mask, 0, 2 ** n - 1), pick(remove, 0, n), pick(add, 0, 5), bool(pick(boom, 0, 1))
         what = 'graph=%s entry=%s endings=%s edited=%s removed=%s add=%d raising=%s:' % (
             graph, spelling, ending_name, [reach[i] for i in range(n) if mask >> i & 1], reach[remove] if remove < n else None, add, boom)
         with NoTracing():       # every selector is concrete from here on: the scenario runs at native speed
@@ -184,7 +184,16 @@ def run_recursive(w, files, entry, cwd, reach, mask, remove, add, boom, what, tw
                     del expected[reach[remove]]
                 if add:
                     newf = parse_concrete(NEW_TEXT, M.File)
-                    if add == 3:     # replace the model under an existing key (the last one visited)
+                    if add == 4:     # the removed entry comes back under another spelling of the same path, with a new model
+                        if remove < n:
+                            old_key = by[reach[remove]]
+                            fs[posixpath.join(posixpath.dirname(old_key), '.', posixpath.basename(old_key))] = newf
+                            expected[reach[remove]] = (NEW_TEXT, None)
+                    elif add == 5:   # a new entry whose model prints to the empty string: the (empty) file must still be created
+                        key = posixpath.join(posixpath.dirname(entry_key), 'empty.bean')
+                        fs[key] = parse_concrete('', M.File)
+                        expected['w/empty.bean'] = ('', None)
+                    elif add == 3:     # replace the model under an existing key (the last one visited)
                         victim = [r for r in rels if r in expected][-1] if any(r in expected for r in rels) else None
                         if victim is not None:
                             fs[by[victim]] = newf
@@ -408,7 +417,7 @@ for _g in GRAPHS:
     for _s in SPELLINGS:
         _tier = {'C16': Q if (_g, _s) in QUICK_PAIRS else T}
         _b = ('edit_file_recursive on include graph %r entered as %r; symbolic: line-ending pattern (%%s), subset of reachable files edited (2^n), '
-              'entry removed (n+1), entry added / replaced (4), body raising (2)' % (_g, _s))
+              'entry removed (n+1), entry added (bare name, new nested directory, empty model) / replaced / re-added under another spelling (6), body raising (2)' % (_g, _s))
         if len(GRAPHS[_g]['reach']) >= 4:       # split by line-ending pattern: cells are the unit of parallelism
             for _e in range(len(ENDINGS)):
                 _reg(make_recursive(_g, _s, fixed_ending=_e), _tier, 900, 'recursive', _b % ENDINGS[_e], cost=400)
